@@ -151,6 +151,12 @@ func unmarshalSecp256k1(jwk *jsonWebKey) (*JWK, error) {
 		return nil, ErrInvalidKey
 	}
 
+	// a coordinate is an element of the curve's field: a value from the field prime upwards is only another spelling of
+	// a smaller one (IsOnCurve reduces it), and one key must not have two JWK forms
+	if x.Cmp(curve.Params().P) >= 0 || y.Cmp(curve.Params().P) >= 0 {
+		return nil, ErrInvalidKey
+	}
+
 	var key interface{}
 
 	if jwk.D != nil {
